@@ -3,7 +3,8 @@
    C05/ProofsVanish.v.
    Model: C05/Model.v (transcription of psutil/__init__.py children/parent/parents/
    ppid and _pslinux.ppid_map; [as_is] = the code as it is now, [before_fixes] = the
-   code before the three repairs 6afb079 / 3959fba / e202d3b), specification: C05/Spec.v.
+   code before the repairs 6afb079 / 3959fba / e202d3b / 671469c, [before_nsp_fix] = the code
+   before 671469c only), specification: C05/Spec.v.
    t = the listed process table (pid, ppid, start ticks), any size, any parent links;
    gone = PIDs vanishing before the call has read their create_time() (children(): before
    ppid_map reads them / before Process(pid) / before child.create_time(); parent(): before
@@ -164,21 +165,46 @@ Theorem C05_parent_spec_vanish : forall fx t gone cache o,
 Proof. exact parent_spec_v. Qed.
 Print Assumptions C05_parent_spec_vanish.
 
-(* known finding: an ancestor that vanishes after parents() appended it makes parents() of
-   a LIVE caller raise NoSuchProcess (for the ancestor's PID); with the proposed repair
-   (notes/fixes/C05-parents-vanished-ancestor.diff) the chain ends there *)
-Theorem C05_parents_vanish_refuted :
-  exists t goneb o, wf_table t = true /\ alive_b t o = true /\
-    parents as_is (S (length t)) t [] goneb None o = Exc NoSuchProcess /\
-    parents with_nsp_fix (S (length t)) t [] goneb None o = Val (Some [5]).
-Proof. exact parents_vanish_refuted. Qed.
-Print Assumptions C05_parents_vanish_refuted.
-
-(* with that repair: whatever vanishes, before or after being appended, a live caller
-   always gets a list from parents() -- never an exception, never a hang *)
-Theorem C05_parents_vanish_total_patched : forall fx t gone goneb cache o,
-  fx_parents_seen fx = true -> fx_parents_nsp fx = true ->
+(* processes vanishing while parents() walks up: whatever vanishes (before a process could be
+   linked, or after an ancestor was appended), a live caller always gets a list from
+   parents() -- never an exception, never a hang *)
+Theorem C05_parents_total_vanish : forall t gone goneb cache o,
   wf_table t = true -> alive_b t o = true -> cache_fresh_b t cache = true ->
-  exists l, parents fx (S (length t)) t gone goneb cache o = Val (Some l).
-Proof. exact parents_vanish_total. Qed.
-Print Assumptions C05_parents_vanish_total_patched.
+  exists l, parents as_is (S (length t)) t gone goneb cache o = Val (Some l).
+Proof. exact parents_total_v. Qed.
+Print Assumptions C05_parents_total_vanish.
+
+(* ... namely the chain of parent() under vanishing (a process that vanished before it could be
+   linked is no parent; the chain ends WITH the first ancestor that vanished after it was
+   linked), whenever that chain ends *)
+Theorem C05_parents_chain_vanish : forall t gone goneb cache o l fuel,
+  wf_table t = true -> alive_b t o = true -> cache_fresh_b t cache = true ->
+  memz (o_pid o) goneb = false ->
+  chain_v t gone goneb (o_pid o) l -> (length l <= fuel)%nat ->
+  parents as_is fuel t gone goneb cache o = Val (Some l).
+Proof. exact parents_chain_v_complete. Qed.
+Print Assumptions C05_parents_chain_vanish.
+
+(* with nothing vanishing that chain is the chain of parent() up to the root *)
+Theorem C05_chain_vanish_static : forall t p l, chain_v t [] [] p l <-> chain t p l.
+Proof. exact chain_v_static. Qed.
+Print Assumptions C05_chain_vanish_static.
+
+(* the harness's oracle for parents() (spec_parents_v) names that chain, and the model of
+   the code returns it *)
+Theorem C05_parents_oracle : forall t gone goneb cache o l,
+  wf_table t = true -> alive_b t o = true -> cache_fresh_b t cache = true ->
+  memz (o_pid o) goneb = false ->
+  spec_parents_v t gone goneb (length t) (o_pid o) = Some l ->
+  parents as_is (S (length t)) t gone goneb cache o = Val (Some l) /\ chain_v t gone goneb (o_pid o) l.
+Proof. exact parents_oracle. Qed.
+Print Assumptions C05_parents_oracle.
+
+(* fixed (671469c): before the repair an ancestor vanishing after parents() appended it made
+   parents() of a LIVE caller raise NoSuchProcess (for the ancestor's PID) *)
+Theorem C05_parents_vanish_old_refuted :
+  exists t goneb o, wf_table t = true /\ alive_b t o = true /\
+    parents before_nsp_fix (S (length t)) t [] goneb None o = Exc NoSuchProcess /\
+    parents as_is (S (length t)) t [] goneb None o = Val (Some [5]).
+Proof. exact parents_vanish_refuted. Qed.
+Print Assumptions C05_parents_vanish_old_refuted.
